@@ -63,6 +63,22 @@ S = {
  "C09_2": ("C09", "tracer.rs Tracer::resume: the re-stop before reporting the next queued signal is skipped for quiet signals", "two signals queued at once, the second one quiet", None, ""),
  "C09_3": ("C09", "tracer.rs single_step: the `pc == initial_pc` re-step removed", "a breakpoint exactly on a rep-prefixed instruction with a count above 1", None, ""),
 }
+
+# how each second-round seed fared on the FIRST run against the checks as they were when the seed arrived
+FIRST = {
+ "C01_1": "caught by the existing units", "C10_1": "caught by the existing unit",
+ "C01_2": "missed at first; caught after C01.step_over_brkpt was added", "C01_3": "missed at first; caught after C01.report was added",
+ "C03_1": "missed at first; caught after C03.tmp_owner was added", "C03_2": "not detected: the DIE-tree walk (gimli iterators) is outside both tools", "C03_3": "caught only under C02 at first; caught under C03 after C03.step_entry was added",
+ "C07_1": "UNDECIDED: the seed rewrites the closure with iterator adapters that Verus cannot read and a Kani harness on the real Value type did not terminate (17 min); C07.index catches arithmetic changes of the arm", "C07_2": "missed at first; caught after C07.set_match was added", "C07_3": "not detected: chumsky float parser (format!/parse::<f64>) is outside both tools",
+ "C09_1": "missed at first; caught after stop marks were added to C09.thread_table", "C09_2": "missed at first; caught after C09.resume_restop was added", "C09_3": "not detected: the re-step on an unmoved pc has no contract (instruction-trace semantics)",
+ "C10_2": "missed at first; caught after C10.cont_stopped was added", "C10_3": "missed at first; caught after the transparent-table outline was added to C10.single_step",
+ "C11_1": "UNDECIDED at first (unknown expression); caught after the attach-time thread list was modelled in C11.drop", "C11_2": "missed at first; caught after C11.disable_all was added", "C11_3": "missed at first; caught after C11.restart was added",
+ "C12_1": "UNDECIDED at first (lost proof anchor); caught after the anchor was removed and mem::take was outlined", "C12_2": "missed at first; caught after handle_next was put under contract (C12.handlers)", "C12_3": "missed at first; caught after handle_configuration_done was put under contract (C12.handlers)",
+ "C13_1": "missed at first; caught after C13.set_breakpoints was added", "C13_2": "missed at first; caught after C13.registry was added", "C13_3": "missed at first; caught after C13.record_lookup was added",
+ "C17_1": "UNDECIDED by the Verus unit (iterator adapters); caught after the bounded Kani validation C17.filter_pred was added", "C17_2": "not detected: how function paths are built (parser.rs) is listed as not covered", "C17_3": "not detected: `symbol <regex>` (regex + HashMap iteration) is listed as not covered",
+ "C18_1": "UNDECIDED: the seed changes the outlined /proc/maps filter expression (std::path), which Verus cannot read", "C18_2": "missed at first; caught after C18.deferred was added", "C18_3": "missed at first; caught after C18.try_into_brkpt was added",
+ "C16_3": "missed at first; caught after the Kani unit C16.formatter_1_87 was added", "C19_3": "missed at first; caught after C19.pieces was added", "C05_2": "missed at first; caught after C05.cfi_lookup was added",
+}
 def main():
     res = {}
     rp = os.path.join(V, "seeded", "results.json")
@@ -75,12 +91,16 @@ def main():
             continue
         r = res.get(sid, {})
         caught = r.get("caught_by", caught)
-        note = r.get("note", note)
-        conf = "see confirm.log" if os.path.exists(os.path.join(d, "confirm.log")) else "agent's logs in NOTES.md; own confirmation pending"
+        note = FIRST.get(sid) or note or r.get("note", "")
+        conf_txt = open(os.path.join(d, "confirm.log")).read() if os.path.exists(os.path.join(d, "confirm.log")) else ""
+        demo_ok = ("-- demo WITH the change" in conf_txt and "test result: FAILED" in conf_txt and "test result: ok" in conf_txt) or "-- demo WITH patch" in conf_txt
+        suite_ok = "STABLE SUITE OK" in conf_txt or "SUITE OK" in conf_txt
+        conf = ("own run (confirm.log): the demonstration fails with the change and passes without it" if demo_ok else "agent's logs in NOTES.md only") + \
+               ("; own run of the baseline suite with the change: all stable tests pass (flaky DAP tests re-run single-threaded)" if suite_ok else "; baseline suite with the change: run by the seeding agent (NOTES.md), DAP tests flaky under load were re-run")
         meta = {"seed": sid, "property": prop, "change": what, "needs_to_manifest": needs,
-                "files": ["patch.diff", "demo.diff", "NOTES.md"],
+                "files": ["patch.diff", "demo.diff", "NOTES.md"] + (["confirm.log"] if conf_txt else []),
                 "detected_by": caught or "NOT DETECTED", "history": note,
-                "what_was_run": "bin/seedrun %s %s (git -C /repo apply patch.diff; bin/vcheck %s quick; git -C /repo checkout -- .)" % (sid, prop, prop),
+                "what_was_run": "bin/seedsweep %s (seeded change applied to a snapshot of /repo: bin/mrun %s seeded/%s/patch.diff = the quick check of %s on the patched tree); equivalent to bin/seedrun %s %s (git -C /repo apply patch.diff; bin/vcheck %s quick; git -C /repo checkout -- .)" % (sid, prop, sid, prop, sid, prop, prop),
                 "own_confirmation": conf}
         json.dump(meta, open(os.path.join(d, "meta.json"), "w"), indent=1)
         rows.append("| %s | %s | %s | %s | %s |" % (sid, what, needs, caught or "**not detected**", note))
